@@ -585,10 +585,72 @@ def corpus():
     ]
 
 
+def gen_long(rng):
+    """a numeric column longer than 2^15 rows under a preset with column-wide statistics (C12's long-frame generator: the rows
+    after the first 2^14 only take low values, so any evaluation in row blocks sees other maxima / means there)"""
+    import corr_C12 as t12
+    c = t12.gen_long_frame(rng)
+    n = rng.choice([33000, 40000, 70000])
+    col = c['cols']['f']
+    low = sorted(set(col[2 ** 14:]), key=float)
+    c['cols']['f'] = col[:2 ** 14] + [rng.choice(low) for _ in range(n - 2 ** 14)]
+    return c
+
+
+def evaluate_long(ctx: Ctx, cases):
+    """every constructed column of a long frame follows its stated rule: the column <feature><transformer> holds what the
+    transformer's name denotes (C12's regenerated table and numpy interpreter) on the WHOLE feature column, row-aligned"""
+    import corr_C12 as t12
+    T = t12.model_tables()
+    for c in cases:
+        ctx.evaluations += 1
+        ctx.count('long-frame')
+        feat, cells = next(iter(c['cols'].items()))
+        short = f'long frame: one numeric column of {len(cells)} rows (values {sorted(set(cells), key=float)[:12]}), preset={c["preset"]!r}'
+        real = t12.real_frame(c)
+        if 'exc' in real:
+            ctx.oracle_fail('raises', f'{short}: construct_new_features raised {real["exc"]}', {'long': c})
+            continue
+        if not real['orig_ok']:
+            ctx.oracle_fail('append-only', f'{short}: the original columns changed', {'long': c})
+            continue
+        exprs = {}
+        for nm in c['preset'].split(','):
+            for k, e in T['gen'].get(nm, []):
+                exprs[k] = T['spec'].get(k, e)
+        for name, colsets in real['new'].items():
+            k = name[len(feat):]
+            if not name.startswith(feat) or k not in exprs:
+                continue
+            got = colsets[0]
+            if len(got) != len(cells):
+                ctx.oracle_fail('row-aligned', f'{short}: column {name!r} has {len(got)} rows', {'long': c})
+                break
+            try:
+                want = t12.texts_of(exprs[k], cells)
+            except Exception:      # noqa: BLE001
+                continue
+            bad = next((i for i, (g, w) in enumerate(zip(got, want)) if not t12.close(g, w)), None)
+            if bad is not None:
+                nbad = sum(1 for g, w in zip(got, want) if not t12.close(g, w))
+                ctx.oracle_fail('transform-rule', f'{short}: column {name!r} row {bad}: {got[bad]!r} but the rule applied to the whole column gives '
+                                f'{want[bad]!r} for the cell {cells[bad]!r} ({nbad} rows differ)', {'long': c})
+                break
+
+
 def run(ctx: Ctx):
     n = 8000 if ctx.thorough() else 1200
     cases = corpus() + [gen_case(ctx.rng, ctx.thorough()) for _ in range(n)]
     evaluate(ctx, cases)
+    evaluate_long(ctx, [gen_long(ctx.rng) for _ in range(4 if ctx.thorough() else 1)])
+
+
+def replay(ctx: Ctx, payload):
+    c = payload['case']
+    if isinstance(c, dict) and 'long' in c:
+        evaluate_long(ctx, [c['long']])
+    else:
+        evaluate(ctx, [c])
 
 
 def search(ctx: Ctx):
@@ -596,4 +658,5 @@ def search(ctx: Ctx):
     sub.rng.seed(f'search:{ctx.seed}')
     cases = [gen_case(sub.rng, True) for _ in range(3000)]
     evaluate(sub, cases, oracle_only=True)
+    evaluate_long(sub, [gen_long(sub.rng) for _ in range(2)])
     return sub.oracle_failures
